@@ -209,6 +209,9 @@ func (v *version) Validate() error {
 	}
 
 	for _, k := range v.keys {
+		if k == nil {
+			return fmt.Errorf("invalid key: null")
+		}
 		if err := k.Validate(); err != nil {
 			return errors.Wrap(err, "invalid key")
 		}
